@@ -84,12 +84,20 @@ def main():
             print("cannot run the correspondence: the repository does not compile with the verification harness")
             sys.exit(2)
         if a.replay:
-            requests = [q for q in fixed_requests if not q.startswith("enum ")]
+            requests = [q for q in fixed_requests if not q.startswith(("enum ", "stat "))]
+            stat_reqs = [q for q in fixed_requests if q.startswith("stat ")]
+            if stat_reqs:
+                from vlib.stat_oracle import run_stat
+                from vlib.oracles import kv
+                specs = [(d["kind"], int(d["n"]), int(d["k"]), int(d["samples"]), int(d["seed"]), d.get("hint"), d.get("gen")) for d in map(kv, stat_reqs)]
+                for item in run_stat(binary, specs, "replayed-statistics", build):
+                    if item.pop("kind") == "oracle":
+                        oracle_fail.append(item)
             enum_reqs = [q for q in fixed_requests if q.startswith("enum ")]
             if enum_reqs:
                 from vlib.enum_oracle import run_enum
                 from vlib.oracles import kv
-                specs = [(d["kind"], int(d["n"]), int(d["k"]), int(d["grid"]), int(d["draws"])) for d in map(kv, enum_reqs)]
+                specs = [(d["kind"], int(d["n"]), int(d["k"]), int(d["grid"]), int(d["draws"]), d.get("hint")) for d in map(kv, enum_reqs)]
                 for item in run_enum(binary, specs, "replayed-enumeration"):
                     if item.pop("kind") == "oracle":
                         oracle_fail.append(item)
